@@ -141,7 +141,24 @@ def sites_of(fn):
     return out
 
 
-def unwrap_source(fn, du, site):
+def _through_wrapper(F, o, depth=0):
+    """a small function of the workspace that only hands on what one call returns (`fn position_of(&self, x) -> Option<usize>
+    { self.0.iter().position(..) }`): the name of that inner call - the site keeps its identity when the search is wrapped"""
+    if F is None or depth > 2:
+        return None
+    r = (o.term or {}).get("resolved") or o.callee
+    g = F.fns.get(r)
+    if g is None or not g["crate"].startswith("tx3") or g.get("impl_trait") or len(g["blocks"]) > 40 or g.get("is_async"):
+        return None
+    dg = mir.DefUse(g)
+    inner = mir.provenance(g, dg, {"l": 0, "p": []})
+    calls = [x for x in inner if x.kind == "call"]
+    if len(inner) == 1 and len(calls) == 1:
+        return _through_wrapper(F, calls[0], depth + 1) or calls[0].callee
+    return None
+
+
+def unwrap_source(fn, du, site, F=None):
     """for a K2 site: short description of what produced the unwrapped value"""
     t = site.term
     if not t["args"]:
@@ -150,7 +167,7 @@ def unwrap_source(fn, du, site):
     names = []
     for o in orig:
         if o.kind == "call":
-            n = o.callee
+            n = _through_wrapper(F, o) or o.callee
             n = n.split("::<")[0] if n.endswith(">") and "::<" in n and not n.startswith("<") else n
             names.append(n.split("::")[-1] if not n.startswith("<") else n.rsplit("::", 1)[-1])
         elif o.kind == "arg":
@@ -182,7 +199,7 @@ def inventory(F, cg, roots, crates=None):
                 continue
             if s.kind == "K2":
                 du = du or mir.DefUse(f)
-                s.detail = unwrap_source(f, du, s)
+                s.detail = unwrap_source(f, du, s, F)
             sites.append(s)
     # multiplicity index within identical keys
     seen = {}
